@@ -3,7 +3,8 @@ by the reference executor and the harness resolvers.
 
 A node is a dict {"_nid": n, "_typename": T, "_shape": s, <field>: value...}.
 `_shape`: 0 dict with `_typename` key; 1 object with `_typename` attribute;
-2 object whose class is named after the type (default type resolver's last resort).
+2 object whose class is named after the type (default type resolver's last resort);
+3 read-only mapping (types.MappingProxyType); 4 row-like object offering only __getitem__.
 """
 from tfv.model import canon, fields_of, kind_of, named, possible_types, ty
 from tfv.ref import Fault
@@ -23,7 +24,7 @@ class Tree:
     def new_node(self, typename):
         n = self.store["next"]
         self.store["next"] = n + 1
-        shape = self.c.weighted([(6, 0), (2, 1), (2, 2)]) if self.c else 0
+        shape = self.c.weighted([(6, 0), (2, 1), (2, 2), (1, 3), (1, 4)]) if self.c else 0
         node = {"_nid": n, "_typename": typename, "_shape": shape}
         self.store["nodes"][str(n)] = node
         return node
